@@ -182,6 +182,12 @@ class _FoldAttr(ast.NodeTransformer):
                 return ast.copy_location(copy.deepcopy(list(f.values())[node.slice.value]), node)
         return node
 
+    def visit_BinOp(self, node):
+        self.generic_visit(node)
+        if isinstance(node.op, ast.Add) and isinstance(node.left, ast.Constant) and isinstance(node.right, ast.Constant) and isinstance(node.left.value, str) and isinstance(node.right.value, str):
+            return ast.copy_location(ast.Constant(value=node.left.value + node.right.value), node)  # "_" + "name"
+        return node
+
     def visit_Call(self, node):
         self.generic_visit(node)
         if isinstance(node.func, ast.Name) and node.func.id == "getattr" and len(node.args) == 2 and not node.keywords:
@@ -933,23 +939,35 @@ class Unroller(ast.NodeTransformer):
 
     # ---- comprehensions over tables
     def _comp_items(self, node, elt_of):
-        if len(node.generators) != 1:
+        if not node.generators or len(node.generators) > 3 or any(g.is_async for g in node.generators):
             return None
-        g = node.generators[0]
-        if g.is_async:
-            return None
-        t = self.table(g.iter)
-        if t is None:
-            return None
-        rows = list(t[1].keys) if t[0] == "pairs" else t[1]
         out = []
-        for r in rows:
-            m = {}
-            if not self.bind(g.target, r, m):
-                return None
-            conds = [_FoldAttr().visit(_Subst(m).visit(copy.deepcopy(c))) for c in g.ifs]
-            out.append((elt_of(m), conds))
-        return out
+
+        def rec(gens, mapping, conds):
+            if not gens:
+                out.append((elt_of(mapping), conds))
+                return True
+            g = gens[0]
+            it = g.iter if not mapping else _FoldAttr().visit(_Subst(mapping).visit(copy.deepcopy(g.iter)))
+            t = self.table(it)
+            if t is None and mapping and isinstance(it, (ast.Tuple, ast.List)) and len(it.elts) <= MAX_ROWS:
+                t = ("rows", list(it.elts))  # a display over the outer loop variable: its elements as they stand
+            if t is None:
+                return False
+            rows = list(t[1].keys) if t[0] == "pairs" else t[1]
+            for r in rows:
+                m = {}
+                if not self.bind(g.target, r, m):
+                    return False
+                m2 = dict(mapping, **m)
+                cs = conds + [_FoldAttr().visit(_Subst(m2).visit(copy.deepcopy(c))) for c in g.ifs]
+                if not rec(gens[1:], m2, cs):
+                    return False
+                if len(out) > MAX_ROWS:
+                    return False
+            return True
+
+        return out if rec(list(node.generators), {}, []) else None
 
     def visit_DictComp(self, node):
         """{k: v for .. in TABLE}  ->  the dict display with one entry per row (keys constant after substitution)"""
@@ -2571,6 +2589,90 @@ def _unpack_displays(tree):
     return count[0]
 
 
+def _display_compares(tree):
+    """`xs = [e1, e2, e3, e4]` bound once in a function and read only through constant slices / indices:
+    `xs[0::2] == xs[1::2]` is `e1 == e2 and e3 == e4` (two displays of the same length compared element by element); a
+    constant index `xs[1]` is `e2`.  The elements must be free of effects that matter for order (they are evaluated
+    where the display was, in order, anyway — the display assignment is kept)."""
+    count = 0
+    for fn in [n for n in ast.walk(tree) if isinstance(n, (ast.FunctionDef, ast.AsyncFunctionDef))]:
+        stores = {}
+        for n in ast.walk(fn):
+            if isinstance(n, ast.Name) and isinstance(n.ctx, (ast.Store, ast.Del)):
+                stores[n.id] = stores.get(n.id, 0) + 1
+        lists = {}
+        for st in fn.body:
+            if isinstance(st, ast.Assign) and len(st.targets) == 1 and isinstance(st.targets[0], ast.Name) and isinstance(st.value, (ast.List, ast.Tuple)) and stores.get(st.targets[0].id) == 1 and not any(isinstance(e, ast.Starred) for e in st.value.elts):
+                lists[st.targets[0].id] = st.value.elts
+        if not lists:
+            continue
+        # no method call on the list (append ..) and no other use than subscripts
+        bad = set()
+        parents = {}
+        for n in ast.walk(fn):
+            for c in ast.iter_child_nodes(n):
+                parents[c] = n
+        for n in ast.walk(fn):
+            if isinstance(n, ast.Name) and n.id in lists and isinstance(n.ctx, ast.Load):
+                p_ = parents.get(n)
+                if not (isinstance(p_, ast.Subscript) and p_.value is n and isinstance(p_.ctx, ast.Load)):
+                    bad.add(n.id)
+        lists = {k: v for k, v in lists.items() if k not in bad}
+        if not lists:
+            continue
+
+        def const(x):
+            if x is None:
+                return True, None
+            if isinstance(x, ast.Constant) and isinstance(x.value, int) and not isinstance(x.value, bool):
+                return True, x.value
+            if isinstance(x, ast.UnaryOp) and isinstance(x.op, ast.USub) and isinstance(x.operand, ast.Constant) and isinstance(x.operand.value, int):
+                return True, -x.operand.value
+            return False, None
+
+        def picked(e):
+            """elements a subscript of a known display denotes: list for a slice, single expr for an index"""
+            if not (isinstance(e, ast.Subscript) and isinstance(e.value, ast.Name) and e.value.id in lists):
+                return None
+            elts = lists[e.value.id]
+            if isinstance(e.slice, ast.Slice):
+                b = [const(e.slice.lower), const(e.slice.upper), const(e.slice.step)]
+                if all(ok for ok, _v in b):
+                    return list(elts[slice(*[v for _ok, v in b])])
+                return None
+            ok, i = const(e.slice)
+            if ok and i is not None and -len(elts) <= i < len(elts):
+                return elts[i]
+            return None
+
+        class _T(ast.NodeTransformer):
+            def visit_Compare(self, n):
+                self.generic_visit(n)
+                if len(n.ops) == 1 and isinstance(n.ops[0], (ast.Eq, ast.NotEq)):
+                    a, b = picked(n.left), picked(n.comparators[0])
+                    if isinstance(a, list) and isinstance(b, list) and len(a) == len(b) and a:
+                        pairs = [ast.Compare(left=copy.deepcopy(x), ops=[ast.Eq()], comparators=[copy.deepcopy(y)]) for x, y in zip(a, b)]
+                        e = pairs[0] if len(pairs) == 1 else ast.BoolOp(op=ast.And(), values=pairs)
+                        if isinstance(n.ops[0], ast.NotEq):
+                            e = ast.UnaryOp(op=ast.Not(), operand=e)
+                        return ast.fix_missing_locations(ast.copy_location(e, n))
+                return n
+
+            def visit_Subscript(self, n):
+                self.generic_visit(n)
+                if isinstance(n.ctx, ast.Load):
+                    a = picked(n)
+                    if a is not None and not isinstance(a, list) and _pure_expr(a):
+                        return ast.copy_location(copy.deepcopy(a), n)
+                return n
+
+        before = ast.dump(fn)
+        _T().visit(fn)
+        if ast.dump(fn) != before:
+            count += 1
+    return count
+
+
 def normalise(tree):
     """unroll table-driven loops and fold constant getattr / setattr; returns (tree, number of loops unrolled)"""
     _single_dispatch(tree)
@@ -2597,5 +2699,6 @@ def normalise(tree):
     tree = _SubElement().visit(tree)
     tree = _HoistElement().visit(tree)
     _inline_local_procedures(tree)
+    _display_compares(tree)
     ast.fix_missing_locations(tree)
     return tree, u.count
